@@ -310,10 +310,10 @@ theorem readStringLoop_ok (q : Cur) (l : Bytes) (c : Cur) (acc : Bytes) (buf : B
     have := StrOK_extend q c [92, 117, h1, h2, h3, h4] (x :: tl) _ 6 rfl
       (NoNL_cons (by omega) (NoNL_cons (by omega) (unhex4_noNL hr))) (ih hA')
     simpa using this
-  case case9 c acc buf e tl he out r hr _ _ _ ih =>
+  case case9 c acc buf e tl he r hr _ _ _ ih =>
     have hA' : Ascii tl := Ascii_tail (Ascii_tail hA)
     have he' : e ≠ 10 ∧ e ≠ 13 := by
-      simp only [out] at hr
+      unfold escapeOut at hr
       split at hr
       · omega
       · split at hr
